@@ -25,7 +25,7 @@ NOT_DECIDED = ['which texts the traceback regex accepts beyond its shape', 'mess
 
 
 def run(ctx):
-    for fn in (r1_exec_handler, r2_check_exception, r3_detail_stripping, r4_continuation, r5_regex_shape):
+    for fn in (r1_exec_handler, r2_check_exception, r3_detail_stripping, r4_continuation, r5_regex_shape, r6_strip_details_bounds):
         ctx.rep.rule(fn, ctx)
 
 
@@ -288,6 +288,73 @@ def r5_regex_shape(ctx):
 
 
 # ---------------------------------------------------------------------------
+def r6_strip_details_bounds(ctx):
+    """_strip_exception_details keeps exactly the class name: every narrowing of the window [start:end] is guarded by a
+    successful search, later searches are confined to the window found so far (the first line, then the part before the
+    first colon), the start skips the last dot, and the result is msg[start:end]."""
+    rep = ctx.rep
+    q = 'xdoctest.checker._strip_exception_details'
+    f = ctx.func(q)
+    g = ctx.cfg(f)
+    rd = ctx.rd(f)
+    dom = ctx.dom(g, g.entry)
+    msg = f.node.args.args[0].arg
+    searches = []
+    for n in g.nodes:
+        if n.kind == 'stmt' and isinstance(n.ast, ast.Assign) and isinstance(n.ast.value, ast.Call) and isinstance(n.ast.value.func, ast.Attribute) and \
+                n.ast.value.func.attr in ('find', 'rfind', 'index', 'rindex') and is_name(n.ast.value.func.value, msg) and isinstance(n.ast.targets[0], ast.Name):
+            c = n.ast.value
+            needle = c.args[0].value if c.args and isinstance(c.args[0], ast.Constant) else None
+            searches.append((n, c, needle, n.ast.targets[0].id))
+    need(len(searches) >= 3, 'C03.R6: the three searches (newline, colon, dot) were not found')
+    by = {needle: (n, c, var) for (n, c, needle, var) in searches}
+    need({'\n', ':', '.'} <= set(by), 'C03.R6: searches for newline / colon / dot not recognised: %s' % sorted(map(repr, by)))
+    # window variables
+    rets = [n for n in g.nodes if n.kind == 'stmt' and isinstance(n.ast, ast.Return)]
+    need(len(rets) == 1 and isinstance(rets[0].ast.value, ast.Subscript) and isinstance(rets[0].ast.value.slice, ast.Slice), 'C03.R6: result is not a slice of the message')
+    sl = rets[0].ast.value.slice
+    ok = is_name(rets[0].ast.value.value, msg) and isinstance(sl.lower, ast.Name) and isinstance(sl.upper, ast.Name)
+    rep.ob('C03.R6', ctx.loc(f, rets[0].ast), ctx.src(rets[0].ast), ok, 'result is the window msg[start:end]' if ok else 'result is not msg[start:end]', nontrivial=False, anchor=q)
+    if not ok:
+        return
+    start, end = sl.lower.id, sl.upper.id
+    # colon and dot searches are confined to [0, end)
+    for needle, what in ((':', 'first colon'), ('.', 'last dot')):
+        n, c, var = by[needle]
+        bounded = len(c.args) >= 3 and is_name(c.args[2], end)
+        rep.ob('C03.R6', ctx.loc(f, c), ctx.src(c), bounded,
+               'the %s is searched only inside the window found so far' % what if bounded else
+               'the search for the %s is not confined to the first line / the part before the colon: a %s inside the message changes the extracted class name' % (what, 'dot' if needle == '.' else 'colon'),
+               anchor=q)
+    ok = by['.'][1].func.attr in ('rfind', 'rindex') and by[':'][1].func.attr in ('find', 'index') and by['\n'][1].func.attr in ('find', 'index')
+    rep.ob('C03.R6', ctx.loc(f, f.node), 'first newline, first colon, last dot', ok, 'search directions as documented' if ok else 'a search direction changed', nontrivial=False, anchor=q)
+    # order: newline, colon, dot (each later search sees the narrowed end)
+    order = sorted([by['\n'][0], by[':'][0], by['.'][0]], key=lambda x: x.lineno)
+    ok = order == [by['\n'][0], by[':'][0], by['.'][0]] and dom.dominates(by['\n'][0], by[':'][0]) and dom.dominates(by[':'][0], by['.'][0])
+    rep.ob('C03.R6', ctx.loc(f, f.node), 'searches in the order newline, colon, dot', ok, 'each search runs after the window was narrowed by the previous one' if ok else 'the searches are not ordered newline -> colon -> dot', anchor=q)
+    # narrowing stores are guarded by the search having succeeded
+    for d in rd.defs_of(end) + rd.defs_of(start):
+        if d.node is g.entry or d.kind not in ('assign',) or not isinstance(d.value, ast.AST):
+            continue
+        if isinstance(d.value, ast.Call) and is_name(d.value.func, 'len'):
+            continue
+        if isinstance(d.value, ast.Constant) and d.value.value == 0:
+            continue
+        facts = graph.guard_facts(dom, d.node)
+        src_names = {x.id for x in ast.walk(d.value) if isinstance(x, ast.Name)}
+        guarded = any(isinstance(fa.expr, ast.Compare) and isinstance(fa.expr.left, ast.Name) and fa.expr.left.id in src_names and isinstance(fa.expr.ops[0], (ast.GtE, ast.Gt, ast.NotEq)) and fa.polarity is True for fa in facts)
+        if d.name == end:
+            shape = isinstance(d.value, ast.Name)
+            what = 'end = position found'
+        else:
+            shape = isinstance(d.value, ast.BinOp) and isinstance(d.value.op, ast.Add) and isinstance(d.value.right, ast.Constant) and d.value.right.value == 1 and isinstance(d.value.left, ast.Name)
+            what = 'start = position of the dot + 1'
+        rep.ob('C03.R6', ctx.loc(f, d.node.ast), ctx.src(d.node.ast), guarded and shape,
+               '%s, only when the search succeeded' % what if guarded and shape else
+               ('the window is narrowed although the search may have failed (-1)' if not guarded else 'unexpected window update (%s expected)' % what), anchor=q)
+
+
+# ---------------------------------------------------------------------------
 from ..selftest import fire, silent      # noqa: E402
 
 DE = 'xdoctest/doctest_example.py'
@@ -318,6 +385,10 @@ VARIANTS = [
          (CK, "    ^(?P<hdr> Traceback\\ \\(", "    (?P<hdr> Traceback\\ \\(")),
     fire('regex-msg-any-line', 'C03.R5',
          (CK, "    ^ (?P<msg> \\w+ .*)", "    ^ (?P<msg> .*)")),
+    fire('dot-search-unbounded', 'C03.R6', (CK, "    i = msg.rfind('.', 0, end)\n", "    i = msg.rfind('.')\n")),
+    fire('colon-search-unbounded', 'C03.R6', (CK, "    i = msg.find(':', 0, end)\n", "    i = msg.find(':')\n")),
+    fire('start-keeps-the-dot', 'C03.R6', (CK, "        start = i + 1\n", "        start = i\n")),
+    fire('narrowing-without-success-test', 'C03.R6', (CK, "    i = msg.find(':', 0, end)\n    if i >= 0:\n        end = i\n", "    i = msg.find(':', 0, end)\n    end = i\n")),
     silent('flag-test-rephrased',
            (CK, "    if not flag:\n        msg = 'exception message is different'\n", "    if flag is False or not flag:\n        msg = 'exception message is different'\n"),
            note='compound test keeps the flag fact on the false edge'),
